@@ -188,6 +188,20 @@ func runC07(w *mc.Worker) {
 		bounds = "sources and destinations of nesting depth <= 2 and joint weight <= 3, kept in every position; balances {0,1,2,3,5,H}^2; amounts {1,2,3,4,6,H+2}"
 		nm = "e2e-w3-d2"
 	}
+	{
+		// nested destinations with kept, two plain sources (kept inside a branch that is followed by another share)
+		dst2 := &DstCfg{Asset: "USD", Accts: ws(0, "x", "y"), Caps: ws(0, "2", "4"),
+			Vecs:     []PortVec{{[]string{"1/2", "1/2"}, 0}, {[]string{"1/3", "remaining"}, 0}},
+			NClauses: ws(0, "1"), WKept: 0, WVar: -1, WInorder: 1, WAllot: 1}
+		src2 := &SrcCfg{Asset: "USD", Accts: ws(0, "a", "b"), ListLens: ws(0, "2"), WOverdraft: -1, WUnbounded: -1, WVar: -1, WInorder: 0, WCapped: -1, WAllot: -1}
+		nb := 2
+		if w.Tier == "thorough" {
+			nb = 3
+		}
+		sp2 := sendSpace{Name: fmt.Sprintf("nested-kept-w%d", nb), Bounds: fmt.Sprintf("sources {x y} over {a,b}; destinations of weight <= %d, nesting depth 2, kept in every position; balances {0,1,2,3,5}^2; amounts {1,2,3,4,6}", nb), Budget: nb, SrcDepth: 1, DstDepth: 2, Src: src2, Dst: dst2,
+			Modes: []string{"fixed", "all"}, Accts: []string{"a", "b"}, BalDom: bal, AmtDom: amt, Asset: "USD"}
+		runSendSpace(w, &sp2, owns, nontriv)
+	}
 	sp := sendSpace{Name: nm, Bounds: bounds, Budget: budget, SrcDepth: depth, DstDepth: depth, Src: src, Dst: dst,
 		Modes: []string{"fixed", "all"}, Accts: []string{"a", "b"}, BalDom: bal, AmtDom: amt, Asset: "USD"}
 	runSendSpace(w, &sp, owns, nontriv)
